@@ -13,7 +13,7 @@ from common import DRIVER, VERIF, run_driver, scratch_dir
 from httpdrv import make_server, parse_multistatus
 
 AUDIT = "Audit/C16.lean"
-MODULE = "Xandikos.Theorems.C16"
+MODULE = "Xandikos.Theorems.C16Resolve"
 DAV = "{DAV:}"
 
 STEMS = ["plain", "a b", "50%", "a%20b", "a#b", "q?x", "s;t", "p+q", "a&b", "a:b", "x=y", "'q'", "a,b", "(p)", "~t", "a@b",
